@@ -39,6 +39,7 @@ fn main() {
         "hist" => {
             let prop = args[2].clone();
             let cfg = mon_hist::RunCfg {
+                thorough: tier == "thorough",
                 prop: prop.clone(),
                 seed,
                 max_histories: num(&args, "--max", 200),
